@@ -626,3 +626,183 @@ Proof.
   right. exists tid. apply enabled_step; auto.
   eapply cinv_reachable; eauto. apply wfc_workers; auto.
 Qed.
+
+(* ================= termination: a potential that every step decreases ================= *)
+(* CR: what one more pass of the master can cost (acquire, <= ntasks decisions,
+   wait, wake, release); every notification may trigger one such pass, and so may
+   every task that leaves the master's list *)
+Definition CR (c : cfg) : nat := ntasks c + 4.
+Definition PB (c : cfg) : nat := CR c + 7.            (* a queued task *)
+Definition PA (c : cfg) : nat := 2 * CR c + 8.        (* a task still in the master's list *)
+Definition PD (c : cfg) : nat := 2 * nworkers c + 2.  (* leaving the loop, sentinels, joins *)
+
+Definition wpot (c : cfg) (p : wpc) : nat :=
+  match p with
+  | WNone | WBoot => 2
+  | WGet => 1
+  | WStart _ _ => 7 + CR c
+  | WPublish _ _ _ _ => 6 + CR c
+  | WTaskDone => 5 + CR c
+  | WNAcq => 4 + CR c
+  | WNotify => 3 + CR c
+  | WNRel => 2
+  | WExited => 0
+  end.
+
+Fixpoint qpot (c : cfg) (q : list (option nat)) : nat :=
+  match q with
+  | [] => 0
+  | Some _ :: r => PB c + qpot c r
+  | None :: r => qpot c r
+  end.
+
+Definition flag (c : cfg) (nb l : nat) : nat := if Nat.eqb nb l then 0 else CR c.
+Definition dpot (c : cfg) (todo acc : list nat) (nb : nat) : nat :=
+  PD c + length todo + 1 + flag c nb (length acc + length todo).
+
+Definition mpotm (c : cfg) (m : mpc) (notified : bool) : nat :=
+  match m with
+  | MStart k => (nworkers c - k) + PD c + CR c + 1
+  | MCvAcq _ => PD c + CR c - 2
+  | MDecide todo acc nb => dpot c todo acc nb
+  | MPut _ todo acc nb => dpot c todo acc nb + 1 + PB c
+  | MCvRelBreak => PD c
+  | MCvRelLoop _ => PD c + CR c - 1
+  | MCvWait _ => PD c + 1
+  | MCvWake _ => PD c + (if notified then CR c else 0)
+  | MQJoin => 2 * nworkers c + 1
+  | MSentinel k => 2 * nworkers c - k
+  | MJoinT k => nworkers c - k
+  | MReturned | MRaised => 0
+  end.
+
+Definition pot (c : cfg) (s : state) : nat :=
+  PA c * length (L c s) + mpotm c (mp s) (cv_notified s) + qpot c (queue s)
+  + countw (wpot c) (wp s) (nworkers c).
+
+Lemma qpot_app : forall c q1 q2, qpot c (q1 ++ q2) = qpot c q1 + qpot c q2.
+Proof. induction q1 as [|[x|] q1 IH]; intros; simpl; auto. rewrite IH; lia. Qed.
+
+Lemma mpotm_nd : forall c todo acc nb b,
+  mpotm c (next_decide todo acc nb) b <= dpot c todo acc nb.
+Proof.
+  intros. unfold next_decide, pass_end. destruct todo; [|simpl; lia].
+  unfold dpot, flag. simpl. replace (length acc + 0) with (length acc) by lia.
+  destruct acc; [simpl; lia|]. destruct (Nat.eqb _ _); simpl; unfold CR; lia.
+Qed.
+
+Definition tinv (c : cfg) (s : state) : Prop := cinv c s /\ length (L c s) <= ntasks c.
+
+Lemma tinv_step : forall c s tid now s', tinv c s -> step c s tid now = Some s' -> tinv c s'.
+Proof.
+  intros c s tid now s' [CI LL] H. split; [eapply cinv_step; eauto|].
+  pose proof (L_length_step _ _ _ _ _ H). lia.
+Qed.
+
+Lemma pot_step : forall c s tid now s', tinv c s -> step c s tid now = Some s' -> pot c s' < pot c s.
+Proof.
+  intros c s [|w] now s' [CI LL] H; unfold pot; rewrite !L_Lm in *.
+  - apply step_master in H.
+    pose proof (ci_spawn _ _ CI) as SI. unfold spawn_inv in SI.
+    pose proof (ci_count _ _ CI) as CNT. unfold count_inv in CNT.
+    minv H; rewrite ?Emp in SI, CNT; rewrite ?Lm_next_decide; simpl mpotm.
+    + (* MStart *)
+      destruct SI as [Hk [_ Bk]].
+      pose proof (countw_upd (wpot c) (wp s) k WBoot _ Hk) as E. rewrite (Bk k) in E by lia. simpl in E.
+      assert (E1 : Lm c (after_spawn c k) = Lm c (MStart k)).
+      { unfold after_spawn. destruct (Nat.eqb _ _); auto. simpl. destruct (order c) as [[|]|]; auto. }
+      assert (E2 : forall b, mpotm c (after_spawn c k) b < mpotm c (MStart k) b).
+      { intro b. unfold after_spawn. destruct (Nat.eqb_spec (S k) (nworkers c)).
+        - destruct (order c) as [[|]|]; simpl; unfold PD, CR; lia.
+        - simpl. lia. }
+      rewrite E1. specialize (E2 (cv_notified s)). simpl in *. lia.
+    + (* MCvAcq *)
+      simpl in *. unfold dpot, flag. simpl. rewrite Nat.eqb_refl. unfold PD, CR. lia.
+    + (* waiting *)
+      pose proof (mpotm_nd c l (acc ++ [n]) nb (cv_notified s)) as M.
+      unfold dpot in *. rewrite <- app_assoc in *. simpl in *. rewrite !app_length in *. simpl in *.
+      replace (length acc + 1 + length l) with (length acc + S (length l)) in M by lia. lia.
+    + (* pending *)
+      simpl. rewrite !app_length. simpl. unfold dpot, flag. simpl.
+      destruct (Nat.eqb _ _); destruct (Nat.eqb _ _); unfold PA, PB, PD, CR; lia.
+    + (* skipped *)
+      pose proof (mpotm_nd c l acc nb (cv_notified s)) as M.
+      simpl. rewrite !app_length. simpl. unfold dpot, flag in *. simpl.
+      destruct (Nat.eqb _ _); destruct (Nat.eqb _ _); unfold PA, PB, PD, CR in *; lia.
+    + (* none *)
+      pose proof (mpotm_nd c l acc nb (cv_notified s)) as M.
+      simpl. rewrite !app_length. simpl. unfold dpot, flag in *. simpl.
+      destruct (Nat.eqb _ _); destruct (Nat.eqb _ _); unfold PA, PB, PD, CR in *; lia.
+    + (* put *)
+      pose proof (mpotm_nd c todo acc nb (cv_notified s)) as M.
+      simpl. rewrite qpot_app. simpl. lia.
+    + simpl. unfold PD. lia.
+    + simpl. unfold PD, CR. lia.
+    + simpl. lia.
+    + (* wake *)
+      apply andb_true_iff in Heqb. destruct Heqb as [-> _]. simpl. unfold CR. lia.
+    + simpl. lia.
+    + simpl. lia.
+    + (* last sentinel *)
+      apply Nat.eqb_eq in Heqb. simpl. rewrite qpot_app. simpl. lia.
+    + destruct CNT as [Hk _]. apply Nat.eqb_neq in Heqb. simpl. rewrite qpot_app. simpl. lia.
+    + destruct CNT as [Hk _]. simpl. lia.
+    + destruct CNT as [Hk _]. simpl. lia.
+  - apply step_worker in H. rewrite (worker_step_mp _ _ _ _ _ H).
+    pose proof (worker_step_lt _ _ _ _ _ (ci_spawn _ _ CI) H) as Hw.
+    winv H;
+      match goal with |- context [upd (wp s) w ?p] =>
+        pose proof (countw_upd (wpot c) (wp s) w p _ Hw) as E end;
+      rewrite ?Ewp in E; simpl in E; rewrite ?Heql; simpl; try lia.
+    + unfold PB. lia.
+    + (* notify *)
+      assert (M : mpotm c (mp s) (cv_notified s || cv_waiting s) <= mpotm c (mp s) (cv_notified s) + CR c).
+      { destruct (mp s); simpl; try lia. destruct (cv_notified s), (cv_waiting s); simpl; lia. }
+      lia.
+Qed.
+
+Lemma run_pot : forall c sched s s', tinv c s -> run c s sched = Some s' ->
+  length sched + pot c s' <= pot c s.
+Proof.
+  induction sched as [|[tid now] r IH]; intros s s' I H; simpl in *.
+  - injection H as <-. lia.
+  - destruct (step c s tid now) as [s1|] eqn:E; [|discriminate].
+    pose proof (pot_step _ _ _ _ _ I E). pose proof (tinv_step _ _ _ _ _ I E) as I1.
+    specialize (IH _ _ I1 H). lia.
+Qed.
+
+Definition sched_bound (c : cfg) : nat :=
+  2 * ntasks c * ntasks c + 17 * ntasks c + 5 * nworkers c + 7.
+
+Lemma countw_const : forall f n k, (forall p, f p = k) -> forall wps, countw f wps n = n * k.
+Proof. induction n; intros; simpl; auto. rewrite (IHn k), H; auto. lia. Qed.
+
+Lemma terminates : forall c e0 st0 clk sched s,
+  wf_cfg_or_cyclic c -> run c (init c e0 st0 clk) sched = Some s -> length sched <= sched_bound c.
+Proof.
+  intros c e0 st0 clk sched s [(ord & O & ND & IN & _ & _ & W)|[O W]] H.
+  - assert (I : tinv c (init c e0 st0 clk)).
+    { split; [apply cinv_init; auto|]. unfold L, init; simpl. rewrite O.
+      destruct (Nat.eqb _ _); [destruct ord|]; simpl; rewrite ?O;
+        rewrite <- (wf_length c _ ND IN); simpl; lia. }
+    pose proof (run_pot _ _ _ _ I H) as P.
+    assert (P0 : pot c (init c e0 st0 clk) <= sched_bound c); [|lia].
+    unfold pot, L, init; simpl. rewrite O.
+    destruct (Nat.eqb_spec (nworkers c) 0); [lia|]. rewrite ?O. simpl.
+    rewrite (wf_length c _ ND IN).
+    assert (Cw : countw (wpot c) (fun _ => WNone) (nworkers c) = nworkers c * 2).
+    { clear. induction (nworkers c); simpl; auto. rewrite IHn. lia. }
+    rewrite Cw. unfold sched_bound, PA, PD, CR. lia.
+  - (* cyclic: the master raised before anything was started *)
+    destruct sched as [|[tid now] r]; [simpl; lia|]. exfalso. simpl in H.
+    assert (E : step c (init c e0 st0 clk) tid now = None); [|rewrite E in H; discriminate].
+    destruct tid as [|w]; unfold step, master_step, worker_step, init; simpl; rewrite ?O;
+      destruct now; reflexivity.
+Qed.
+
+(* and a terminal state has no successor for the master *)
+Lemma terminal_no_master_step : forall c s now, terminal s = true -> step c s 0 now = None.
+Proof.
+  intros c s now T. simpl. destruct now; auto. unfold terminal in T. unfold master_step.
+  destruct (mp s); try discriminate; reflexivity.
+Qed.
